@@ -7,7 +7,7 @@ Not decided: equality of answers of the two back ends for arbitrary operation se
 engine semantics."""
 import re
 
-from vlib.model import Anchor, Call, Prov, guards_of, discr_variants, root_str
+from vlib.model import Anchor, Call, Prov, guards_of, discr_variants, root_str, short_name
 from vlib import mapper as M
 
 COLLECTIONS = ["event", "message", "model", "package", "proc", "task"]
